@@ -57,7 +57,11 @@ example : (session (fun _ => true) { transport := true }
 
 /-- **source tie (translator 4)**: how the receiver takes the sequence number out of a data frame's flags and
     how `Frame.ack` puts it into the acknowledgement - translated from the Python ast on every run - are the model's -/
-theorem C06_source_exprs (seq flags : Nat) :
-    Gen.packSeqOfFlagsExpr flags = (flags &&& Gen.flagPacketSeq) >>> 2 ∧ Gen.ackFlagSeqExpr seq = seq <<< 4 := ⟨rfl, rfl⟩
+theorem C06_source_exprs (seq flags : Nat) (hs : seq < 4) (hf : flags < 256) :
+    Gen.packSeqOfFlagsExpr flags = (flags &&& Gen.flagPacketSeq) >>> 2 ∧ Gen.ackFlagSeqExpr seq = seq <<< 4 := by
+  -- decided over the whole domain (two-bit numbers, one-byte flags): robust against equivalent rewrites of the source
+  have h1 : ∀ f, f < 256 → Gen.packSeqOfFlagsExpr f = (f &&& Gen.flagPacketSeq) >>> 2 := by decide +kernel
+  have h2 : ∀ s, s < 4 → Gen.ackFlagSeqExpr s = s <<< 4 := by decide +kernel
+  exact ⟨h1 flags hf, h2 seq hs⟩
 
 end Zboss.Rx
